@@ -80,15 +80,20 @@ class Monitor(object):
         -------
 
         """
+        # Events are handed over exactly once: the monitor empties each
+        # actor's list after collecting it (actors do not clear their own).
         if self.simulation.instrument.events:
             self.events = pd.concat([self.events,
                                     pd.DataFrame(self.simulation.instrument.events)])
+            self.simulation.instrument.events = []
 
         if self.simulation.scheduler.events:
             self.events = pd.concat([self.events,
                                     pd.DataFrame(self.simulation.scheduler.events)])
+            self.simulation.scheduler.events = []
         if self.simulation.buffer.events:
             self.events = pd.concat([self.events,
                                     pd.DataFrame(self.simulation.buffer.events)])
+            self.simulation.buffer.events = []
 
         self.events = self.events.infer_objects()
